@@ -40,11 +40,35 @@ def dbl_bits(f):
 # ----------------------------------------------------------------------------- tables
 
 class Opt:
-    def __init__(self, idx, kind, chk, names):
+    def __init__(self, idx, kind, chk, names, dflt=None, role=None):
         self.idx, self.kind, self.chk, self.names = idx, kind, chk, names
         self.base = {'int': 'int', 'sint': 'int', 'sll': 'int', 'dbl': 'dbl', 'sdbl': 'dbl',
-                     'str': 'str', 'sstr': 'str', 'flag': 'flag'}[kind]
+                     'str': 'str', 'sstr': 'str', 'flag': 'flag', 'lint': 'int', 'ldbl': 'dbl', 'lstr': 'str',
+                     'optfile': 'optfile'}[kind]
         self.wild = b'*' in names[0]
+        self.islist = kind in ('lint', 'ldbl', 'lstr')
+        self.logged = self.islist or (self.wild and self.base != 'flag')
+        self.dflt = dflt            # shown value before any assignment, if not the type's default
+        self.role = role            # 'version' for the standard version flag
+        self.aliases = []           # out-of-line synonyms: (names, echo text)
+
+
+def std_opts(flags):
+    """the standard options of BasicSolver::InitMetaInfoAndOptions, in the order the harness prints them"""
+    L = [Opt(0, 'flag', 'any', [b'tech:version', b'version'], role='version'),
+         Opt(0, 'optfile', 'any', [b'tech:optionfile', b'optionfile', b'option:file']),
+         Opt(0, 'int', 'mask15', [b'tech:wantsol', b'wantsol']),
+         Opt(0, 'int', 'nonneg', [b'obj:no', b'objno'], dflt='i1'),
+         Opt(0, 'int', 'bool01', [b'tech:debug', b'debug'])]
+    if flags & 2:
+        L.append(Opt(0, 'int', 'bool01', [b'obj:multi', b'multiobj']))
+    L.append(Opt(0, 'int', 'bool01', [b'tech:timing', b'timing']))
+    if flags & 1:
+        L.append(Opt(0, 'int', 'bool01', [b'sol:count', b'countsolutions']))
+        L.append(Opt(0, 'str', 'any', [b'sol:stub', b'solstub', b'solutionstub']))
+    for i, o in enumerate(L):
+        o.idx = i
+    return L
 
 
 WORDS = [b'alg', b'lim', b'tech', b'pre', b'cut', b'mip', b'lp', b'sol', b'tol', b'iter', b'time', b'gap', b'feas',
@@ -69,8 +93,13 @@ def gen_name(rnd, used):
     raise RuntimeError('name pool exhausted')
 
 
-def gen_table(rnd, tid, quirks=False):
-    used = set()
+STD_WORDS = [b'tech', b'obj', b'sol', b'version', b'optionfile', b'option', b'wantsol', b'objno', b'debug', b'multiobj',
+             b'timing', b'countsolutions', b'solstub', b'solutionstub']
+
+
+def gen_table(rnd, tid, quirks=False, std=None, lists=False):
+    """std = (flags, solver name) for a solver built with the standard options"""
+    used = set(w for w in STD_WORDS) if std else set()
     opts = []
     n = rnd.randrange(3, 11)
     kinds = ['int', 'sint', 'sll', 'dbl', 'sdbl', 'str', 'sstr', 'flag']
@@ -84,6 +113,10 @@ def gen_table(rnd, tid, quirks=False):
         chk = 'any'
         if kind == 'int' and rnd.random() < 0.25:
             chk = rnd.choice(['nonneg', 'bool01'])
+        if lists and rnd.random() < 0.3:
+            kind = {'int': 'lint', 'sint': 'lint', 'sll': 'lint', 'dbl': 'ldbl', 'sdbl': 'ldbl', 'str': 'lstr', 'sstr': 'lstr'}.get(kind, kind)
+            if kind.startswith('l'):
+                chk = 'any'
         opts.append([kind, chk, names])
     # wildcard options (accessor kinds only: a StoredOption ignores the key body).  The synonym
     # patterns have DIFFERENT shapes (head/tail lengths, empty tail, empty head): the key body is part
@@ -121,12 +154,30 @@ def gen_table(rnd, tid, quirks=False):
             opts.append(['int', 'any', [b'q:*:q']])
             opts.append(['str', 'any', [b'r*r*', b'rr**']])
     rnd.shuffle(opts)
-    lines = ['T %s' % tid]
-    res = []
+    stdl = std_opts(std[0] & 3) if std else []
+    lines = ['S %s %d %s' % (tid, std[0], x(std[1]))] if std else ['T %s' % tid]
+    res = list(stdl)
+    post = []
     for i, (kind, chk, names) in enumerate(opts):
-        lines.append('O %s %s %s %s' % (tid, kind, chk, ','.join(x(nm) for nm in names)))
-        res.append(Opt(i, kind, chk, names))
-    return lines, res
+        o = Opt(len(stdl) + i, kind, chk, names)
+        plain = not o.wild and not quirks
+        ctor_names = list(names)
+        # some inline synonyms are added after construction (AddOptionSynonyms_Inline_Front/_Back): same lookup
+        if plain and len(names) > 1 and rnd.random() < 0.3:
+            k = rnd.randrange(1, len(names))
+            ctor_names, late = names[:k], names[k:]
+            post.append('B %s %s %s %s' % (tid, rnd.choice(['front', 'back']), x(names[0]), ','.join(x(nm) for nm in late)))
+        lines.append('O %s %s %s %s' % (tid, kind, chk, ','.join(x(nm) for nm in ctor_names)))
+        # out-of-line synonyms (AddOptionSynonyms_OutOfLine): a separate entry that delegates to the real option
+        if plain and o.base != 'flag' and not o.islist and rnd.random() < 0.3:
+            al = [gen_name(rnd, used) for _ in range(rnd.choice([1, 1, 2]))]
+            o.aliases.append((al, al[0] + b' (' + names[0] + b')'))
+            post.append('A %s %s %s' % (tid, x(names[0]), ','.join(x(nm) for nm in al)))
+        res.append(o)
+    if rnd.random() < 0.3:
+        post.append(rnd.choice(['A %s %s %s' % (tid, x(b'zznone'), x(b'zzalias')), 'B %s back %s %s' % (tid, x(b'zznone'), x(b'zzsyn')), 'B %s front %s %s' % (tid, x(b'zznone'), x(b'zzsyn'))]))
+    rnd.shuffle(post)
+    return lines + post, res
 
 
 # ----------------------------------------------------------------------------- well-formed stream
@@ -203,7 +254,7 @@ def gen_str_value(rnd, cmdline):
     if rnd.random() < 0.5:
         q = rnd.choice([b"'", b'"'])
         n = rnd.choice([0, 1, 3, 8, 30])
-        alphabet = (BARE + b'    \t\n').replace(q, b'')
+        alphabet = (BARE + (b'    \t ' if NO_NL else b'    \t\n')).replace(q, b'')
         body = bytes(rnd.choice(alphabet) for _ in range(n))
         if rnd.random() < 0.1:
             body += bytes([rnd.randrange(128, 256)])
@@ -221,14 +272,16 @@ def gen_str_value(rnd, cmdline):
 
 def ws(rnd, minimum=0):
     k = rnd.choice([0, 0, 0, 1, 1, 2]) if minimum == 0 else rnd.choice([1, 1, 1, 2, 3])
-    return b''.join(rnd.choice([b' ', b' ', b' ', b'\t', b'\n', b'\r', b'\f', b'\v']) for _ in range(k))
+    return b''.join(rnd.choice([b' ', b' ', b' ', b'\t', b' ' if NO_NL else b'\n', b'\r', b'\f', b'\v']) for _ in range(k))
 
 
 GEN_STATS = {}
+NO_NL = False            # inside an option file a value or separator cannot contain a newline
+FILE_COUNTER = [0]
 
 
 def gen_key(rnd, opt):
-    """a way to address `opt`; returns (key bytes, body or None)"""
+    """a way to address `opt`; returns (key bytes, body or None, the name the echo line shows)"""
     if opt.wild:
         pat = rnd.choice([nm for nm in opt.names if b'*' in nm])
         body = rnd.choice([b'1', b'2', b'3', b'10', b'ab', b'X'])
@@ -236,9 +289,12 @@ def gen_key(rnd, opt):
         k = 'primary' if pat == opt.names[0] else 'synonym-same-shape' if shape(pat) == shape(opt.names[0]) else \
             'synonym-empty-tail' if shape(pat)[1] == 0 else 'synonym-empty-head' if shape(pat)[0] == 0 else 'synonym-other-shape'
         GEN_STATS[k] = GEN_STATS.get(k, 0) + 1
-        return pat.replace(b'*', body, 1), body
+        return pat.replace(b'*', body, 1), body, opt.names[0].replace(b'*', body, 1)
+    if opt.aliases and rnd.random() < 0.4:
+        al, echo = rnd.choice(opt.aliases)
+        return recase(rnd, rnd.choice(al)), None, echo
     nm = rnd.choice(opt.names)
-    return recase(rnd, nm), None
+    return recase(rnd, nm), None, opt.names[0]
 
 
 def gen_item(rnd, opts, cmdline, hist):
@@ -261,35 +317,64 @@ def gen_item(rnd, opts, cmdline, hist):
             return key + sep + v, ('unknown', key, [v])
         v = b'zzv' + rnd.choice(WORDS)
         return key + sep + v, ('unknown', key, [v])
-    if r < 0.16:
-        key, body = gen_key(rnd, opt)
+    if opt.base == 'optfile' and (hist is None or hist['depth'] >= 2 or rnd.random() < 0.5):
+        opt = rnd.choice([o for o in opts if o.base != 'optfile'])     # option files: bounded nesting
+    if r < 0.16 and not opt.islist:      # (ListOption::GetValue on an empty list is UB: never queried)
+        key, body, echo = gen_key(rnd, opt)
         q = key + rnd.choice([b'=?', b' ?', b' = ?', b'= ?', b'\t=?'])
-        return q, ('query', opt.idx, body)
+        return q, ('query', opt.idx, body, echo)
     if opt.base == 'flag':
-        key, _ = gen_key(rnd, opt)
+        key, _, echo = gen_key(rnd, opt)
         if rnd.random() < 0.15:
             v = rnd.choice([b'1', b'0', b'yes', b'7x'])
             return key + ws(rnd) + b'=' + ws(rnd) + v, ('flagarg', key)
-        return key, ('set', opt.idx, None, ('f', 1))
-    key, body = gen_key(rnd, opt)
+        return key, ('set', opt.idx, None, ('f', 1), echo)
+    key, body, echo = gen_key(rnd, opt)
+    if opt.base == 'optfile':
+        # an option file: lines of well-formed items (parsed with the flags ParseOptions was called with,
+        # never as command-line text), comment lines, blank lines, indentation; possibly nested
+        global NO_NL
+        saved = NO_NL
+        NO_NL = True
+        hist['depth'] += 1
+        flines, inner = [], []
+        for _ in range(rnd.choice([0, 1, 2, 3, 5])):
+            k = rnd.random()
+            if k < 0.15:
+                flines.append(rnd.choice([b'# a comment', b'   #indented comment = 5', b'#', b'\t# x=1']))
+            elif k < 0.25:
+                flines.append(rnd.choice([b'', b'   ', b'\t', b' \r']))
+            else:
+                its = [gen_item(rnd, opts, False, hist) for _ in range(rnd.choice([1, 1, 2, 3]))]
+                flines.append(render_source(rnd, [t for t, _ in its]))
+                inner += [e for _, e in its]
+        hist['depth'] -= 1
+        NO_NL = saved
+        content = b'\n'.join(flines) + rnd.choice([b'', b'\n', b'\n\n'])
+        fname = ('f%d.opt' % (FILE_COUNTER[0])).encode()
+        FILE_COUNTER[0] += 1
+        hist['files'].append((fname, content))
+        return key + sep + fname, ('file', opt.idx, fname, inner, echo)
     if opt.base == 'int':
         if rnd.random() < 0.03 and opt.chk == 'any':
             v = rnd.choice([2**31, 3000000000, -2**31 - 1, 2**32 + 5, 2**63, 10**20, -10**19, 2**40])
-            return key + sep + str(v).encode(), ('intwrap', opt.idx, body, v, opt.kind)
+            return key + sep + str(v).encode(), ('intwrap', opt.idx, body, v, opt.kind, echo)
         lo, hi = INT_MIN, INT_MAX
         if opt.chk == 'nonneg':
             lo = 0
         if opt.chk == 'bool01':
             lo, hi = 0, 1
+        if opt.chk == 'mask15':
+            lo, hi = 0, 15
         v, t = gen_int_text(rnd, lo, hi)
-        return key + sep + t, ('set', opt.idx, body, ('i', v))
+        return key + sep + t, ('set', opt.idx, body, ('i', v), echo)
     if opt.base == 'dbl':
         v, t = gen_real_text(rnd)
-        return key + sep + t, ('set', opt.idx, body, ('d', dbl_bits(v)))
+        return key + sep + t, ('set', opt.idx, body, ('d', dbl_bits(v)), echo)
     v, t = gen_str_value(rnd, cmdline)
     if not sep_eq and t[:1] == b'=':
         v, t = b'v' + v, b'v' + t
-    return key + sep + t, ('set', opt.idx, body, ('s', v.hex()))
+    return key + sep + t, ('set', opt.idx, body, ('s', v.hex()), echo)
 
 
 def render_source(rnd, items):
@@ -305,8 +390,13 @@ EXES = [(b'', None), (b'mysolver', b'mysolver'), (b'/usr/local/bin/mysolver', b'
         (b'rel/highs.EXE', b'highs.EXE'), (b'/x/y/z.app', b'z')]
 
 
-def gen_wellformed_case(rnd, cid, tid, opts):
-    """returns (op line, expectation dict)"""
+def is_str_assign(e):
+    return e[0] == 'file' or (e[0] == 'set' and e[3][0] == 's')
+
+
+def gen_wellformed_case(rnd, cid, tid, opts, solver=SOLVER):
+    """returns (op lines, expectation dict)"""
+    ctx = {'files': [], 'depth': 0}
     no_echo = rnd.random() < 0.3
     exe, exe_base = rnd.choice(EXES)
     srcs = []   # (kind, text, effects)
@@ -324,7 +414,7 @@ def gen_wellformed_case(rnd, cid, tid, opts):
         its = []
         for _ in range(k):
             pool = hot if rnd.random() < 0.6 else opts
-            its.append(gen_item(rnd, pool, cmdline, None))
+            its.append(gen_item(rnd, pool, cmdline, ctx))
         return its
     applied = []
     ignored = []
@@ -338,7 +428,7 @@ def gen_wellformed_case(rnd, cid, tid, opts):
         applied += [e for _, e in its]
     if have_solver:
         its = items(False, False)
-        env.append((SOLVER + b'_options', render_source(rnd, [t for t, _ in its])))
+        env.append((solver + b'_options', render_source(rnd, [t for t, _ in its])))
         if have_exe:
             ignored += [e for _, e in its]
         else:
@@ -352,10 +442,10 @@ def gen_wellformed_case(rnd, cid, tid, opts):
             # on the command line a string value extends to the end of the element:
             # a string assignment is the last item of its element and nothing follows it
             for j, (t, e) in enumerate(its):
-                if e[0] == 'set' and e[3][0] == 's':
+                if is_str_assign(e):
                     its = its[:j + 1]
                     break
-            if its and its[-1][1][0] == 'set' and its[-1][1][3][0] == 's':
+            if its and is_str_assign(its[-1][1]):
                 lead = [t for t, _ in its[:-1]]
                 text = ws(rnd)
                 for t in lead:
@@ -367,8 +457,9 @@ def gen_wellformed_case(rnd, cid, tid, opts):
             applied += [e for _, e in its]
     e = '-' if not env else ';'.join(x(k) + '=' + x(v) for k, v in env)
     a = 'N' if argv is None else ','.join(['A'] + [x(v) for v in argv])
-    line = 'C %s %s %d 0 0 %s %s %s %s' % (cid, tid, int(no_echo), x(SOLVER), x(exe), e, a)
-    return line, {'applied': applied, 'ignored': ignored, 'no_echo': no_echo}
+    line = 'C %s %s %d 0 0 %s %s %s %s' % (cid, tid, int(no_echo), x(solver), x(exe), e, a)
+    flines = ['F %s %s' % (x(n), x(c)) for n, c in ctx['files']]
+    return flines + [line], {'applied': applied, 'ignored': ignored, 'no_echo': no_echo}
 
 
 # ----------------------------------------------------------------------------- hostile stream
@@ -408,6 +499,11 @@ def mutate(rnd, b, names):
 
 def gen_hostile_text(rnd, opts, allow_unterminated):
     names = [nm for o in opts for nm in o.names] + [b'zzq']
+    if any(o.base == 'optfile' for o in opts) and rnd.random() < 0.25:
+        # read an option file: an existing one (well-formed or hostile), a missing one, odd spellings
+        f = rnd.choice(FILE_REFS[-40:] + [b'f%d.opt' % rnd.randrange(max(1, FILE_COUNTER[0]))] * 3 + [b'nope.opt', b'', b'.', b'f0.opt x'])
+        t = rnd.choice([b'optionfile=', b'tech:optionfile ', b'OPTION:FILE = ', b"optionfile='", b'optionfile=?']) + f
+        return rnd.choice([b'', b'wantsol=3 ', b'version ', b'debug=1 ']) + t + rnd.choice([b'', b' timing=1', b"'", b' objno=2'])
     r = rnd.random()
     if r < 0.55:
         its = [gen_item(rnd, opts, rnd.random() < 0.3, None)[0] for _ in range(rnd.choice([1, 2, 3, 5]))]
@@ -444,14 +540,17 @@ def gen_hostile_text(rnd, opts, allow_unterminated):
     return t
 
 
-def gen_hostile_case(rnd, cid, tid, opts, p_unterminated=0.5):
+FILE_REFS = []
+
+
+def gen_hostile_case(rnd, cid, tid, opts, p_unterminated=0.5, solver=SOLVER):
     allow = rnd.random() < p_unterminated
     no_echo = rnd.random() < 0.5
     cl = rnd.random() < 0.15
     th = rnd.random() < 0.2
     exe = rnd.choice([b'', b'', b'h', b'/a/h.exe', b'/a/', b'.exe', b'mp', b'q.app', b'a/b.c/d', b'.', b'dummy'])
     env = []
-    for name in (b'mp_options', b'h_options', b'dummy_options', b'_options', b'q_options', b'd_options'):
+    for name in (b'mp_options', b'h_options', solver + b'_options', b'_options', b'q_options', b'd_options'):
         if rnd.random() < 0.35:
             env.append((name, gen_hostile_text(rnd, opts, allow)))
     if rnd.random() < 0.1 and env:
@@ -460,7 +559,7 @@ def gen_hostile_case(rnd, cid, tid, opts, p_unterminated=0.5):
     argv = None if nargs is None else [gen_hostile_text(rnd, opts, True) for _ in range(nargs)]
     e = '-' if not env else ';'.join(x(k) + '=' + x(v) for k, v in env)
     a = 'N' if argv is None else ','.join(['A'] + [x(v) for v in argv])
-    return 'C %s %s %d %d %d %s %s %s %s' % (cid, tid, int(no_echo), int(cl), int(th), x(SOLVER), x(exe), e, a)
+    return 'C %s %s %d %d %d %s %s %s %s' % (cid, tid, int(no_echo), int(cl), int(th), x(solver), x(exe), e, a)
 
 
 # ----------------------------------------------------------------------------- canonicalisation
@@ -488,7 +587,7 @@ def parse_result(line, model):
         if len(h) == 4 and h[2] == 'crash':
             return {'cid': h[1], 'outcome': 'overread' if h[3] == 'asan-heap-buffer-overflow-read' else 'crash:' + h[3]}
         return {'raw': line}
-    if len(head) != 4 or len(h) != 4:
+    if len(head) != 5 or len(h) != 4:
         return {'raw': line}
     errs = [] if head[1] == '-' else head[1].split(',')
     vals = [] if head[2] == '-' else [canon_val(v, model) for v in head[2].split(',')]
@@ -509,7 +608,7 @@ def parse_result(line, model):
                 ce.append((b'  ' + bytes.fromhex(e) + b'\n').hex())
         else:
             ce.append(e)
-    return {'cid': h[1], 'outcome': h[2], 'ret': h[3], 'errs': errs, 'vals': vals, 'echo': ce}
+    return {'cid': h[1], 'outcome': h[2], 'ret': h[3], 'errs': errs, 'vals': vals, 'echo': ce, 'prints': head[4]}
 
 
 def same_result(pi, pm):
@@ -518,7 +617,7 @@ def same_result(pi, pm):
         return pi == pm
     if pi['outcome'] == 'overread' or pm['outcome'] == 'overread':
         return pi['outcome'] == pm['outcome'] and pi['cid'] == pm['cid']
-    for k in ('cid', 'outcome', 'ret', 'errs', 'vals'):
+    for k in ('cid', 'outcome', 'ret', 'errs', 'vals', 'prints'):
         if pi.get(k) != pm.get(k):
             return False
     if len(pi['echo']) != len(pm['echo']):
@@ -548,41 +647,64 @@ def log_final_map(shown):
 
 
 def expected_final(opts, exp):
-    """apply the assignments in order (python reference, independent of the Lean model)"""
+    """apply the assignments in order (python reference, independent of the Lean model);
+    also the names the echo lines must show, in order, and whether the version text is printed"""
     vals = {}
-    logs = {o.idx: [] for o in opts if o.wild}
+    logs = {o.idx: [] for o in opts if o.logged}
     by_idx = {o.idx: o for o in opts}
     errs = []
-    nonerr = 0
     wraps = []
-    for e in exp['applied']:
-        if e[0] == 'set':
-            _, idx, body, v = e
-            if by_idx[idx].wild:
-                logs[idx].append((body.hex(), v))
-            else:
-                vals[idx] = v
-            nonerr += 1
-        elif e[0] == 'query':
-            nonerr += 1
-        elif e[0] == 'unknown':
-            errs.append('u' + e[1].hex())
-        elif e[0] == 'flagarg':
-            errs.append('a' + e[1].hex())
-        elif e[0] == 'intwrap':
-            wraps.append(e)
-            nonerr += 1
-    return vals, logs, errs, nonerr, wraps
+    echo = []       # (option, name shown)
+    version = [False]
+
+    def go(effects):
+        for e in effects:
+            if e[0] == 'set':
+                _, idx, body, v, en = e
+                o = by_idx[idx]
+                if o.logged:
+                    logs[idx].append(((body or b'').hex(), v))
+                else:
+                    vals[idx] = v
+                if o.role == 'version':
+                    version[0] = True
+                echo.append((o, en))
+            elif e[0] == 'query':
+                echo.append((by_idx[e[1]], e[3]))
+            elif e[0] == 'unknown':
+                errs.append('u' + e[1].hex())
+            elif e[0] == 'flagarg':
+                errs.append('a' + e[1].hex())
+            elif e[0] == 'intwrap':
+                wraps.append(e)
+                echo.append((by_idx[e[1]], e[5]))
+            elif e[0] == 'file':
+                _, idx, fname, inner, en = e
+                vals[idx] = ('s', fname.hex())      # option_file_save_ is set before the file is read
+                go(inner)
+                echo.append((by_idx[idx], en))      # the echo of the option-file assignment follows its lines' echoes
+    go(exp['applied'])
+    return vals, logs, errs, echo, wraps, version[0]
 
 
 def show_expected(o, vals, logs):
     def sv(v):
         return {'i': lambda: 'i%d' % v[1], 'd': lambda: 'd' + v[1], 's': lambda: 's' + v[1], 'f': lambda: 'f%d' % v[1]}[v[0]]()
-    if o.wild:
+    if o.logged:
         return 'w' + ''.join('(%s:%s)' % (b, sv(v)) for b, v in logs[o.idx])
     if o.idx in vals:
         return sv(vals[o.idx])
-    return {'int': 'i0', 'dbl': 'd' + dbl_bits(0.0), 'str': 's', 'flag': 'f0'}[o.base]
+    if o.dflt:
+        return o.dflt
+    return {'int': 'i0', 'dbl': 'd' + dbl_bits(0.0), 'str': 's', 'flag': 'f0', 'optfile': 's'}[o.base]
+
+
+def flat(effects):
+    for e in effects:
+        if e[0] == 'file':
+            yield from flat(e[3])
+        else:
+            yield e
 
 
 def is_subsequence(small, big):
@@ -595,39 +717,34 @@ def oracle_wellformed(pi, opts, exp):
     bad = []
     if 'raw' in pi:
         return [('wellformed:unparsable-output', pi['raw'][:200])]
-    if pi['outcome'] in ('error', 'invalid') and any(e[0] == 'intwrap' for e in exp['applied']):
+    if pi['outcome'] in ('error', 'invalid') and any(e[0] == 'intwrap' for e in flat(exp['applied'])):
         return []     # an out-of-range integer literal was rejected by an exception: acceptable
     if pi['outcome'] != 'ok':
         return [('wellformed:%s' % pi['outcome'].replace(':', '-'), 'well-formed options text did not parse normally: outcome %s' % pi['outcome'])]
-    vals, logs, errs, nonerr, wraps = expected_final(opts, exp)
+    vals, logs, errs, want_echo, wraps, version = expected_final(opts, exp)
+    nonerr = len(want_echo)
     wrapped_idx = {w[1] for w in wraps}
-    by_idx = {o.idx: o for o in opts}
     # echo: one line per non-error item, in order, naming the addressed option/entry in standard form
-    if not exp['no_echo']:
-        want_names = []
-        for e in exp['applied']:
-            if e[0] in ('set', 'intwrap'):
-                want_names.append((by_idx[e[1]], std_name(by_idx[e[1]], e[2] or b'')))
-            elif e[0] == 'query':
-                want_names.append((by_idx[e[1]], std_name(by_idx[e[1]], e[2] or b'')))
-        if len(want_names) == len(pi['echo']):
-            for (o, nm), got_hex in zip(want_names, pi['echo']):
-                line = bytes.fromhex(got_hex)
-                ok = (line == b'  ' + nm + b'\n') if o.base == 'flag' else line.startswith(b'  ' + nm + b' = ')
-                if not ok:
-                    bad.append(('wellformed:echo-names-wrong-%s' % ('wildcard-entry' if o.wild else 'option'),
-                                'echo line %r does not name %r' % (line[:80], nm)))
-                    break
+    if not exp['no_echo'] and len(want_echo) == len(pi['echo']):
+        for (o, nm), got_hex in zip(want_echo, pi['echo']):
+            line = bytes.fromhex(got_hex)
+            ok = (line == b'  ' + nm + b'\n') if o.base == 'flag' else line.startswith(b'  ' + nm + b' = ')
+            if not ok:
+                bad.append(('wellformed:echo-names-wrong-%s' % ('wildcard-entry' if o.wild else 'option'),
+                            'echo line %r does not name %r' % (line[:80], nm)))
+                break
+    if pi.get('prints') != ('p%d' % exp.get('vprints', 3) if version else 'p0'):
+        bad.append(('wellformed:version-text', 'version flag %s in this call but %s other Print calls (ShowVersion prints %d)' % ('set' if version else 'not set', pi.get('prints'), exp.get('vprints', 3))))
     for o in opts:
         want = show_expected(o, vals, logs)
         got = pi['vals'][o.idx]
         if o.idx in wrapped_idx:
             continue    # judged below
-        if o.wild and want != got:
+        if o.logged and want != got:
             # which entry (key body) received which value, for every spelling of the key
             wm, gm = log_final_map(want), log_final_map(got)
             if wm != gm:
-                bad.append(('wellformed:wildcard-entry:final-value', 'wildcard option %r: final entries (body->value) expected %s, implementation has %s (later assignment through another spelling must override)' % (o.names[0], wm, gm)))
+                bad.append(('wellformed:%s:final-value' % ('list-option' if o.islist else 'wildcard-entry'), 'wildcard/list option %r: final entries (body->value) expected %s, implementation has %s (later assignment through another spelling must override)' % (o.names[0], wm, gm)))
             else:
                 bad.append(('wellformed:wildcard-entry:assignment-sequence', 'wildcard option %r: expected assignments %s, implementation recorded %s' % (o.names[0], want, got)))
             continue
@@ -637,21 +754,21 @@ def oracle_wellformed(pi, opts, exp):
                 kind = 'source-order'
             bad.append(('wellformed:%s:%s' % (kind, o.base), 'option %r (slot %d): expected %s, implementation has %s' % (o.names[0], o.idx, want, got)))
     for w in wraps:
-        _, idx, body, v, kind = w
+        _, idx, body, v, kind, _en = w
         # an integer literal outside int: the option must not silently hold a different number
         o = [q for q in opts if q.idx == idx][0]
         got = pi['vals'][idx]
         later = False
         seen = False
-        for e in exp['applied']:
+        for e in flat(exp['applied']):
             if e is w:
                 seen = True
-            elif seen and e[0] in ('set', 'intwrap') and e[1] == idx and not o.wild:
+            elif seen and e[0] in ('set', 'intwrap') and e[1] == idx and not o.logged:
                 later = True
         if later:
             continue
-        if o.wild:
-            ok = ('(%s:i%d)' % (body.hex(), v)) in got
+        if o.logged:
+            ok = ('(%s:i%d)' % ((body or b'').hex(), v)) in got
         else:
             ok = got == 'i%d' % v
         if not ok:
@@ -715,6 +832,10 @@ COUNTEREXAMPLE_OPS = [
     'C cx1 cx 1 0 0 %s x %s=%s N' % (x(SOLVER), x(SOLVER + b'_options'), x(b"x='")),
     # the same text given on the command line is harmless (quotes are not interpreted there)
     'C cx2 cx 1 0 0 %s x - A,%s' % (x(SOLVER), x(b"x='")),
+    # regression (fixed in ampl/mp 5ace2c7): an option file that names itself must end with an error, not a stack overflow
+    'S cxs 3 ' + x(b'cxsolv'),
+    'F ' + x(b'self.opt') + ' ' + x(b'wantsol=1\noptionfile=self.opt\n'),
+    'C cx4 cxs 1 0 0 %s x %s=%s N' % (x(b'cxsolv'), x(b'cxsolv_options'), x(b'optionfile=self.opt')),
     # C11_counterexample_int_wrap: big=3000000000 stores -1294967296 in a 64-bit option
     'C cx3 cx 1 0 0 %s x - A,%s' % (x(SOLVER), x(b"big=3000000000")),
 ]
@@ -726,20 +847,11 @@ def build(ck):
     return ck.link('h_options', h + objs, flags=['-fsanitize=address,undefined'])
 
 
-def run(ck):
-    N_THEOREMS = 26
-    proof_ok, failing = ck.proof_stage('MpVerif.C11.Props', 'MpVerif/C11/Props.lean', 'C11_',
-                                        ['MpVerif/C11/*.lean'], expect_min=N_THEOREMS)
-    ck.log('proof stage: ok=%s failing=%s' % (proof_ok, failing[:10]))
-    if ck.tier == 'thorough' and proof_ok:
-        badm = ck.leanchecker(['MpVerif.C11.Props'])
-        if badm:
-            failing += ['leanchecker rejected %s' % m for m in badm]
-            proof_ok = False
-    exe = build(ck)
-    drv = ck.driver('drv_c11')
+def generate(ck):
+    """the op lines of this tier/seed: corpus, fixed regression cases, generated tables, well-formed and hostile streams"""
     rnd = random.Random(ck.seed * 1000003 + 11)
     GEN_STATS.clear()
+    del FILE_REFS[:]
     quick = ck.tier == 'quick'
     n_tables = 12 if quick else 60
     n_wf = 4000 if quick else 40000
@@ -771,20 +883,67 @@ def run(ck):
         tl, opts = gen_table(rnd, tid, quirks=True)
         lines += tl
         tables[tid] = (tl, opts)
-    plain = [t for t in tables if t.startswith('t')]
+    # solvers built with the standard options (InitMetaInfoAndOptions): version flag, option files,
+    # wantsol/objno/bool options with throwing setters, a solver name of their own
+    for t in range(max(4, n_tables // 2)):
+        tid = 's%d' % t
+        solver = rnd.choice([b'stdsolv', b'hsolve', b'minos', b'sx'])
+        sflags = rnd.choice([0, 1, 2, 3, 3]) + rnd.choice([0, 0, 4]) + rnd.choice([0, 0, 8])
+        tl, opts = gen_table(rnd, tid, quirks=False, std=(sflags, solver))
+        lines += tl
+        tables[tid] = (tl, opts, solver, sflags)
+    # tables with list options (AddListOption); used by the well-formed stream only
+    for t in range(max(2, n_tables // 4)):
+        tid = 'l%d' % t
+        tl, opts = gen_table(rnd, tid, quirks=False, lists=True)
+        lines += tl
+        tables[tid] = (tl, opts)
+    FILE_COUNTER[0] = 0
+    plain = [t for t in tables if t[0] in 'tsl']
     # ---- well-formed stream
     for i in range(n_wf):
         tid = rnd.choice(plain)
         cid = 'w%d' % i
-        l, exp = gen_wellformed_case(rnd, cid, tid, tables[tid][1])
-        lines.append(l)
+        solver = tables[tid][2] if len(tables[tid]) > 2 else SOLVER
+        ls, exp = gen_wellformed_case(rnd, cid, tid, tables[tid][1], solver)
+        sf = tables[tid][3] if len(tables[tid]) > 3 else 0
+        exp['vprints'] = 2 + (0 if sf & 4 else 1) + (1 if sf & 8 else 0)
+        lines += ls
         meta[cid] = ('wf', tid, exp)
-    # ---- hostile stream
+    # ---- hostile stream (not on the list-option tables: `=?` on an empty list option is UB in ListOption::GetValue)
+    hfiles = 0
+    hostile_tids = [t for t in tables if t[0] != 'l']
     for i in range(n_host):
-        tid = rnd.choice(list(tables))
+        tid = rnd.choice(hostile_tids)
         cid = 'h%d' % i
-        lines.append(gen_hostile_case(rnd, cid, tid, tables[tid][1], p_unterminated=0.2))
+        solver = tables[tid][2] if len(tables[tid]) > 2 else SOLVER
+        if tid[0] == 's' and rnd.random() < 0.3:
+            # a hostile option file, and a case that reads it
+            fname = ('h%d.opt' % hfiles).encode()
+            hfiles += 1
+            content = b'\n'.join(gen_hostile_text(rnd, tables[tid][1], True).replace(b'.opt', b'_opt') for _ in range(rnd.choice([0, 1, 2, 4])))
+            lines.append('F %s %s' % (x(fname), x(content)))
+            FILE_REFS.append(fname)
+        lines.append(gen_hostile_case(rnd, cid, tid, tables[tid][1], p_unterminated=0.2, solver=solver))
         meta[cid] = ('host', tid)
+    return lines, meta, tables
+
+
+def run(ck):
+    if os.environ.get('VERIF_COVERAGE'):
+        return coverage_run(ck)
+    N_THEOREMS = 26
+    proof_ok, failing = ck.proof_stage('MpVerif.C11.Props', 'MpVerif/C11/Props.lean', 'C11_',
+                                        ['MpVerif/C11/*.lean'], expect_min=N_THEOREMS)
+    ck.log('proof stage: ok=%s failing=%s' % (proof_ok, failing[:10]))
+    if ck.tier == 'thorough' and proof_ok:
+        badm = ck.leanchecker(['MpVerif.C11.Props'])
+        if badm:
+            failing += ['leanchecker rejected %s' % m for m in badm]
+            proof_ok = False
+    exe = build(ck)
+    drv = ck.driver('drv_c11')
+    lines, meta, tables = generate(ck)
     ops_path = os.path.join(BUILD, 'c11.%s.ops' % ck.tier)
     open(ops_path, 'w').write('\n'.join(lines) + '\n')
 
@@ -829,6 +988,8 @@ def run(ck):
             overreads.append((op, m))
         elif oc.startswith('crash') or 'raw' in pi:
             crashes.append((op, il[k], m))
+        if cid == 'cx4' and not (pi.get('outcome') == 'error' and any(e.startswith('n') for e in pi.get('errs', []))) and not oc.startswith('crash'):
+            oracle_bad.setdefault('optionfile:self-inclusion:not-reported', []).append((op, 'a self-including option file must end with the nesting error, got %s' % il[k][:200], 'cxs'))
         if m[0] == 'wf':
             for sig, msg in oracle_wellformed(pi, tables[m[1]][1], m[2]):
                 oracle_bad.setdefault(sig, []).append((op, msg, m[1]))
@@ -858,6 +1019,13 @@ def run(ck):
                          replay_obj(op, tid, {'asan_report': rep, 'cases_in_run': len(overreads)}), found_input=True)
     for op, out, m in crashes[:5]:
         tid = op.split(' ')[2]
+        if out.split(' ')[-1] in ('stack-overflow', 'signal-11') and op.split(' ')[1] == 'cx4':
+            selfops = [l for l in COUNTEREXAMPLE_OPS if l.startswith('S cxs') or l.startswith('F ')] + [op]
+            rep, frames = symbolized_report(exe, selfops, BUILD)
+            ck.add_violation('optionfile:self-inclusion:stack-overflow',
+                             'an option file that includes itself (optionfile=self.opt inside self.opt) recurses without bound: stack overflow (%s)' % ' <- '.join(dict.fromkeys(frames[:8])),
+                             {'ops': selfops, 'asan_report': rep[:1500], 'how': 'run h_options on these ops; or ./check C11 --replay <this file>'}, found_input=True)
+            continue
         ck.add_violation('memory-or-crash:%s' % out.split(' ')[-1], 'implementation died on option text: %s' % out, replay_obj(op, tid), found_input=True)
     # (b) oracle
     oracle_ops = set()
@@ -885,6 +1053,15 @@ def run(ck):
     ck.cov['exhaustive'] = False
     hist['wildcard_key_spellings'] = dict(GEN_STATS)
     ck.cov['generator_histogram'] = hist
+    try:
+        cj = json.load(open(os.path.join(VERIF, 'design_notes', 'coverage', 'C11.json')))
+        ck.cov['anchor_line_cov'] = cj['anchor_line_cov']
+        ck.cov['anchor_branch_cov'] = cj['anchor_branch_cov']
+        ck.cov['mechanism_line_cov'] = cj['mechanism_line_cov']
+        ck.cov['mechanism_branch_cov'] = cj['mechanism_branch_cov']
+        ck.cov['coverage_note'] = 'gcov of the anchored files under the quick stream, measured by VERIF_COVERAGE=1 ./check C11 (design_notes/coverage/C11.md); mechanism_* = the functions named in anchors.mechanism and their callees'
+    except Exception:
+        pass
     ck.cov['correspondence'] = {'cases': n_cases, 'agree': n_same, 'disagree': len(corr_bad), 'over_reads_detected_by_asan': len(overreads)}
     ck.assumptions += [
         'C locale isspace/tolower/strtol/strtod (glibc); the numeric value of a real is delegated to libc strtod on the consumed text',
@@ -894,6 +1071,128 @@ def run(ck):
     ]
     ck.level = 'proof'
     ck.cov['trusted_base'] += ['harness/h_options.cc + checks/c11.py generators/canonicaliser', 'AddressSanitizer/UBSan (g++ 12) for the memory-safety clause on sampled inputs']
+
+
+
+# ----------------------------------------------------------------------------- coverage mode (VERIF_COVERAGE=1)
+
+ANCHOR_FILES = ['src/solver.cc', 'include/mp/solver-opt.h', 'include/mp/solver-base.h', 'include/mp/option.h',
+                'src/option.cc', 'include/mp/utils-string.h', 'src/utils_string.cc']
+MECHANISM_FUNCS = ['SkipSpaces', 'SkipNonSpaces', 'SkipToEnd', 'SkipToMatchingQuote', 'ParseOptionString', 'ParseOptions',
+                   'OptionHelper', 'TypedSolverOption', 'FindOption', 'wc_match', 'wc_split', 'HandleUnknownOption', 'ReportError',
+                   'UseOptionFile', 'ProcessLines_AvoidComments', 'StoredOption', 'ListOption', 'ConcreteOption', 'SolverOption::SolverOption',
+                   'AddOption', 'echo', 'quoted', 'split_string', 'OptionNameLess', 'VersionOption', 'BoolOption', 'ShowVersion',
+                   'SetWantSol', 'SetObjNo', 'GetObjNo', 'GetWantSol', 'SetSolutionStub', 'GetSolutionStub', 'GetOptionFile']
+
+
+def coverage_run(ck):
+    """gcov line/branch coverage of the anchored files under the quick-tier input stream (not part of normal runs)"""
+    import gzip, shutil, atexit
+    evp = os.path.join(EVID, 'C11.json')
+    if os.path.exists(evp):
+        old = open(evp, 'rb').read()
+        atexit.register(lambda: open(evp, 'wb').write(old))     # the coverage run is not a verdict: keep the evidence
+    cdir = os.path.join(BUILD, 'cov11')
+    shutil.rmtree(cdir, ignore_errors=True)
+    os.makedirs(cdir)
+    inc = ['-I' + os.path.join(REPO, 'include'), '-I' + os.path.join(REPO, 'src'), '-I' + os.path.join(VERIF, 'harness')]
+    defs = ['-DMP_DATE=20240320', '-DMP_SYSINFO="Linux x86_64"', '-DMP_USE_ATOMIC', '-DMP_USE_HASH', '-DMP_USE_UNIQUE_PTR',
+            '-DAMPL_MP_VERIF', '-DNDEBUG', '-DVERIF_COVERAGE']
+    covsrc = [os.path.join(REPO, 'src', 'solver.cc'), os.path.join(REPO, 'src', 'option.cc'), os.path.join(REPO, 'src', 'utils_string.cc'),
+              os.path.join(VERIF, 'harness', 'h_options.cc')]
+    objs = []
+    for src in covsrc:
+        o = os.path.join(cdir, os.path.basename(src).replace('.', '_') + '.o')
+        rc, out, err = sh(['g++', '-std=c++17', '-w', '-O0', '-g', '--coverage'] + defs + inc + ['-c', src, '-o', o], timeout=1800)
+        if rc != 0:
+            raise RuntimeError('coverage compile failed: ' + err[-2000:])
+        objs.append(o)
+    others = [o for o in ck.libmp_objects(flags=('-O0', '-DNDEBUG'))
+              if not any(k in os.path.basename(o) for k in ('mp-solver_cc', 'mp-option_cc', 'mp-utils_string_cc'))]
+    exe = os.path.join(cdir, 'h_options_cov')
+    rc, out, err = sh(['g++', '--coverage'] + objs + others + ['-o', exe, '-ldl'], timeout=1800)
+    if rc != 0:
+        raise RuntimeError('coverage link failed: ' + err[-2000:])
+    lines, meta, tables = generate(ck)
+    ops_path = os.path.join(cdir, 'cov.ops')
+    open(ops_path, 'w').write('\n'.join(lines) + '\n')
+    with open(ops_path + '.impl', 'w') as f:
+        subprocess.run([exe, ops_path, ops_path + '.stderr'], stdout=f, stderr=subprocess.PIPE, timeout=3000)
+    rc, out, err = sh(['gcov-12', '-b', '-c', '--json-format', '-o', cdir] + [o[:-2] + '.gcda' for o in objs], cwd=cdir, timeout=1800)
+    per_file = {}
+    for gz in glob.glob(os.path.join(cdir, '*.gcov.json.gz')):
+        data = json.load(gzip.open(gz))
+        for f in data['files']:
+            fn = os.path.normpath(os.path.join(data.get('current_working_directory', ''), f['file']))
+            rel = None
+            for a in ANCHOR_FILES:
+                if fn.endswith(a):
+                    rel = a
+            if rel is None:
+                continue
+            d = per_file.setdefault(rel, {'lines': {}, 'branches': {}, 'funcs': {}})
+            for fu in f['functions']:
+                e = d['funcs'].setdefault((fu['demangled_name'], fu['start_line']), [fu['start_line'], fu['end_line'], 0])
+                e[2] += fu['execution_count']
+            for ln in f['lines']:
+                key = ln['line_number']
+                d['lines'][key] = d['lines'].get(key, 0) + ln['count']
+                for bi, br in enumerate(ln['branches']):
+                    if br.get('throw'):
+                        continue      # exceptional edges of calls: not source-level decisions
+                    bk = (key, ln.get('function_name', ''), bi)
+                    d['branches'][bk] = d['branches'].get(bk, 0) + br['count']
+    summary = {}
+    md = ['# C11 coverage of the anchored files under the quick-tier input stream (seed %d)\n' % ck.seed,
+          'Measured by `VERIF_COVERAGE=1 ./check C11` (g++-12 `--coverage -O0`, `gcov-12 -b -c`; exceptional call edges excluded from the branch count; template/inline code counted over all TUs that instantiate it: solver.cc, option.cc, utils_string.cc and the harness).\n']
+    tl = tb = cl = cb = 0
+    mech_rows = []
+    for rel in ANCHOR_FILES:
+        d = per_file.get(rel)
+        if not d:
+            md.append('* `%s`: no executable lines seen by gcov' % rel)
+            continue
+        nl, hl = len(d['lines']), sum(1 for v in d['lines'].values() if v > 0)
+        nb, hb = len(d['branches']), sum(1 for v in d['branches'].values() if v > 0)
+        summary[rel] = {'lines': nl, 'lines_hit': hl, 'branches': nb, 'branches_hit': hb}
+        md.append('* `%s`: lines %d/%d (%.1f%%), branches %d/%d (%.1f%%)' % (rel, hl, nl, 100.0 * hl / max(nl, 1), hb, nb, 100.0 * hb / max(nb, 1)))
+        for (name, st), (s0, e0, cnt) in sorted(d['funcs'].items(), key=lambda kv: kv[1][0]):
+            if not any(k in name for k in MECHANISM_FUNCS):
+                continue
+            ls = [k for k in d['lines'] if s0 <= k <= e0]
+            ul = sorted(k for k in ls if d['lines'][k] == 0)
+            bs = [k for k in d['branches'] if s0 <= k[0] <= e0]
+            ub = sorted({k[0] for k in bs if d['branches'][k] == 0})
+            tl += len(ls); cl += len(ls) - len(ul); tb += len(bs); cb += len(bs) - len([k for k in bs if d['branches'][k] == 0])
+            if cnt == 0 or ul or ub:
+                mech_rows.append('| `%s:%d` | `%s` | %s | %s | %s |' % (rel, s0, name[:90], 'never called' if cnt == 0 else 'called', ','.join(map(str, ul)) or '-', ','.join(map(str, ub)) or '-'))
+    md.append('\nMechanism functions (those named in anchors.mechanism and what they call): lines %d/%d (%.1f%%), branches %d/%d (%.1f%%)\n' % (cl, tl, 100.0 * cl / max(tl, 1), cb, tb, 100.0 * cb / max(tb, 1)))
+    md.append('| where | function | status | uncovered lines | lines with an untaken branch |\n|---|---|---|---|---|')
+    md += mech_rows
+    os.makedirs(os.path.join(VERIF, 'design_notes', 'coverage'), exist_ok=True)
+    open(os.path.join(VERIF, 'design_notes', 'coverage', 'C11.measured.md'), 'w').write('\n'.join(md) + '\n')
+    al = sum(v['lines'] for v in summary.values()); ah = sum(v['lines_hit'] for v in summary.values())
+    ab = sum(v['branches'] for v in summary.values()); abh = sum(v['branches_hit'] for v in summary.values())
+    js = {'seed': ck.seed, 'tier': ck.tier, 'anchor_line_cov': round(100.0 * ah / max(al, 1), 1), 'anchor_branch_cov': round(100.0 * abh / max(ab, 1), 1),
+          'mechanism_line_cov': round(100.0 * cl / max(tl, 1), 1), 'mechanism_branch_cov': round(100.0 * cb / max(tb, 1), 1), 'per_file': summary}
+    # which arms of the Lean model the same stream takes (driver `trace` mode)
+    drv = ck.driver('drv_c11')
+    arms = {}
+    with open(ops_path) as fi:
+        pr = subprocess.run([drv, 'trace'], stdin=fi, stdout=subprocess.PIPE, text=True, timeout=3000)
+    for l in pr.stdout.split('\n'):
+        if l.startswith('X '):
+            for a in l[2:].split(','):
+                if a:
+                    arms[a] = arms.get(a, 0) + 1
+    js['model_arms_cases'] = dict(sorted(arms.items()))
+    md2 = ['\n## Arms of the Lean model taken by the same stream (number of cases in which the arm is taken)\n']
+    md2 += ['* `%s`: %d' % kv for kv in sorted(arms.items())]
+    open(os.path.join(VERIF, 'design_notes', 'coverage', 'C11.measured.md'), 'a').write('\n'.join(md2) + '\n')
+    json.dump(js, open(os.path.join(VERIF, 'design_notes', 'coverage', 'C11.json'), 'w'), indent=1)
+    ck.log('coverage: anchors lines %.1f%% branches %.1f%%; mechanism functions lines %.1f%% branches %.1f%%' %
+           (js['anchor_line_cov'], js['anchor_branch_cov'], js['mechanism_line_cov'], js['mechanism_branch_cov']))
+    ck.cov.update({'obligations': 0, 'discharged': 0, 'checker_cmd': 'coverage mode', 'evaluations': len(lines)})
 
 
 def replay(ck, path):
